@@ -26,6 +26,7 @@ FAMILIES = {
     "DIG": (1, 160, 4, 400, 5),
     "CAP": (4, 120, 4, 260, 5),
     "U8": (2, 120, 3, 260, 4),
+    "BIG": (1, 300, 4, 1600, 5),
 }
 UNIVERSE_SHARDS = 4
 
